@@ -1,9 +1,6 @@
 ----------------------------- MODULE IterLoopMC -----------------------------
 EXTENDS IterLoop
-AllLConfigs == {c \in [alg : Algs, cap : 0..4, tol : BOOLEAN, cb : BOOLEAN, cbstops : BOOLEAN] :
-                   /\ (c.cbstops => c.cb)
-                   /\ (c.alg \in TuckerFamily => ~c.cb)}
-LongLConfigs == {c \in [alg : Algs, cap : {7}, tol : {TRUE}, cb : BOOLEAN, cbstops : BOOLEAN] :
-                   /\ (c.cbstops => c.cb) /\ (c.alg \in TuckerFamily => ~c.cb)}
-NoLConfigs == {[alg |-> "tucker", cap |-> 0, tol |-> FALSE, cb |-> FALSE, cbstops |-> FALSE]}
+AllLConfigs == {c \in [alg : Algs, cap : 0..4, tol : BOOLEAN, cb : BOOLEAN, cbstops : BOOLEAN, signed : BOOLEAN] : FamilyOK(c)}
+LongLConfigs == {c \in [alg : Algs, cap : {7}, tol : {TRUE}, cb : BOOLEAN, cbstops : BOOLEAN, signed : BOOLEAN] : FamilyOK(c)}
+NoLConfigs == {[alg |-> "tucker", cap |-> 0, tol |-> FALSE, cb |-> FALSE, cbstops |-> FALSE, signed |-> FALSE]}
 =============================================================================
